@@ -145,11 +145,23 @@ def search(ctx, corr, broken):
     return common.search_families(ctx, corr, [('c09_matrix', {'verbose': [0, 2]}), ('c09_helper_sweep', {'verbose': [0, 2], 'max_extra': 8})])
 
 
+K_C09_A_TEXT = ">>> import sys\n>>> print(t(0))\n>>> sys.stdout.close()\n>>> print(t(1))\n"
+
+
 def classify(ctx, hit):
+    inp = hit.get('input') or {}
+    text = inp.get('text') if isinstance(inp, dict) else None
+    # K-C09-a: narrow -- the doctest itself closes the stream that is sys.stdout while it runs
+    if text and 'sys.stdout.close()' in text and (hit.get('impl') or {}).get('ending') in ('escaped', None):
+        return 'K-C09-a'
     return None
 
 
 def replay_finding(ctx, finding):
+    if finding['id'] == 'K-C09-a':
+        from ..corr import runloop
+        o = runloop.observe(K_C09_A_TEXT, on_error='return')
+        return o.get('ending') == 'escaped'
     return False
 
 
